@@ -323,13 +323,27 @@ def getTable (a : Nat) (rels : List RelID) : W (Option Nat) := fun w =>
               | .notRelation => .panic .notRelation w
           go ts.tables
 
+/-- The first loop of `createTable` (`targets[idx] = rel.target`) as far as it can panic, walking
+    the relations in order with the components seen so far (Go: `var seen bitMask`): a relation
+    whose component was already named panics "relation component %d specified more than once"
+    (`.relTwice`, the repair of defect D18); otherwise a component that is not a column of the
+    archetype has `componentsMap` index −1, a Go runtime panic. `none`: the loop passes. -/
+def checkRelList (A : Archetype) : List Comp → List RelID → Option PanicKind
+  | _, [] => none
+  | seen, r :: rest =>
+    if seen.contains r.comp then some .relTwice
+    else if (A.colIdx r.comp).isNone then some .runtime
+    else checkRelList A (r.comp :: seen) rest
+
 /-- `createTable`: returns the table ID. -/
 def createTable (a : Nat) (rels : List RelID) : W Nat := do
   let w ← M.get
   let A := w.arch a
   M.assert (!(rels.length < A.numRel)) .relUnspecified
-  -- targets[idx] = rel.target  (index −1 is a Go runtime panic)
-  M.assert (rels.all fun r => (A.colIdx r.comp).isSome) .runtime
+  -- seen.Get/Set; targets[idx] = rel.target  (index −1 is a Go runtime panic)
+  match checkRelList A [] rels with
+  | some k => M.panic k
+  | none => pure ()
   let targets := rels.foldl (fun (ts : List Ent) r =>
     match A.colIdx r.comp with
     | some i => ts.set i r.target
@@ -488,19 +502,23 @@ def getExchangeTargetsUnchecked (T : Table) (rels : List RelID) : Option (List R
   some (((T.ids.zip targets).zip T.isRel).filterMap fun ((c, e), r) =>
     if r then some ⟨c, e⟩ else none)
 
-/-- `getExchangeTargets`: `(newRelations, changed, changeMask)`. -/
+/-- `getExchangeTargets`: `(newRelations, changed, changeMask)`.  `seen` = the relation
+    components named so far (Go: `var seen bitMask`): a relation whose component was already named
+    panics "relation component %d specified more than once" (`.relTwice`, the repair of defect
+    D19) before the column is looked up. -/
 def getExchangeTargets (T : Table) (rels : List RelID) : W (List RelID × Bool × Mask) := fun w =>
-  let rec go (targets : List Ent) (changed : Bool) (cm : Mask) :
+  let rec go (targets : List Ent) (changed : Bool) (cm : Mask) (seen : List Comp) :
       List RelID → Res World (List Ent × Bool × Mask)
     | [] => .ok (targets, changed, cm) w
     | r :: rest =>
+      if seen.contains r.comp then .panic .relTwice w else
       match T.colIdx r.comp with
       | none => .panic .noRelComponent w
       | some i =>
         if !(T.isRel.getD i false) then .panic .notRelation w
-        else if r.target == targets.getD i Ent.zero then go targets changed cm rest
-        else go (targets.set i r.target) true (cm.set r.comp) rest
-  match go T.targets false Mask.empty rels with
+        else if r.target == targets.getD i Ent.zero then go targets changed cm (r.comp :: seen) rest
+        else go (targets.set i r.target) true (cm.set r.comp) (r.comp :: seen) rest
+  match go T.targets false Mask.empty [] rels with
   | .panic k w => .panic k w
   | .ok (targets, changed, cm) w =>
     if !changed then .ok ([], false, cm) w else
